@@ -1,10 +1,12 @@
 package main
 
 import (
+	"encoding/json"
 	"fmt"
 	"math"
 	"os"
 	"runtime/pprof"
+	"sort"
 	"strings"
 
 	"github.com/mosaicnetworks/babble/src/crypto/keys"
@@ -24,6 +26,7 @@ type bcase struct {
 	resets  bool                                             // fast-forward: an accepted response legitimately replaces the store
 	hline   func(w *world, t *hnode, st _state.State) string // model input (computed BEFORE the delivery), "" if none
 	hres    func(r callRes) string                           // observation for the model line
+	input   func(w *world, t *hnode) string                  // the hostile message as JSON (for the violation report), may be nil
 }
 
 var allStates = []_state.State{_state.Babbling, _state.CatchingUp, _state.Joining, _state.Suspended, _state.Shutdown, _state.Leaving}
@@ -176,6 +179,10 @@ func (w *world) cases() []bcase {
 	// ---------------- SyncRequest ----------------
 	syncCase := func(name string, mk func(t *hnode) *net.SyncRequest, states []_state.State) {
 		l = append(l, bcase{id: "sync/" + name, kind: "sync", states: states,
+			input: func(w *world, t *hnode) string {
+				b, _ := json.Marshal(mk(t))
+				return string(b)
+			},
 			run: func(w *world, t *hnode) callRes {
 				var req net.SyncRequest
 				if !viaJSON(mk(t), &req) {
@@ -228,6 +235,50 @@ func (w *world) cases() []bcase {
 	syncCase("limit=-1/suspended", func(t *hnode) *net.SyncRequest {
 		return &net.SyncRequest{FromID: h1.id, Known: map[uint32]int{}, SyncLimit: -1}
 	}, []_state.State{_state.Suspended})
+	// Known maps that make core.eventDiff FAIL (an index below -1 for a participant the node knows):
+	// the request is answered with an error; what matters is what the node does afterwards
+	for _, v := range []int{-2, math.MinInt64, math.MinInt32} {
+		v := v
+		for _, st := range []_state.State{_state.Babbling, _state.Suspended} {
+			st := st
+			syncCase(fmt.Sprintf("known[h1]=%d/%s", v, strings.ToLower(stateName(st))), func(t *hnode) *net.SyncRequest {
+				k := t.n.VerifCore().KnownEvents()
+				k[h1.id] = v
+				return &net.SyncRequest{FromID: h1.id, Known: k, SyncLimit: 1000}
+			}, []_state.State{st})
+		}
+		syncCase(fmt.Sprintf("known[all]=%d", v), func(t *hnode) *net.SyncRequest {
+			k := t.n.VerifCore().KnownEvents()
+			for id := range k {
+				k[id] = v
+			}
+			return &net.SyncRequest{FromID: 77, Known: k, SyncLimit: 5}
+		}, babbling)
+		syncCase(fmt.Sprintf("known[only-h1]=%d", v), func(t *hnode) *net.SyncRequest {
+			return &net.SyncRequest{FromID: h1.id, Known: map[uint32]int{h1.id: v}, SyncLimit: 5}
+		}, babbling)
+	}
+	syncCase("known[all]=maxint", func(t *hnode) *net.SyncRequest {
+		k := t.n.VerifCore().KnownEvents()
+		for id := range k {
+			k[id] = math.MaxInt64
+		}
+		return &net.SyncRequest{FromID: h1.id, Known: k, SyncLimit: 5}
+	}, []_state.State{_state.Babbling, _state.Suspended})
+	syncCase("known=missing-ids", func(t *hnode) *net.SyncRequest {
+		k := t.n.VerifCore().KnownEvents()
+		ids := []int{}
+		for id := range k {
+			ids = append(ids, int(id))
+		}
+		sort.Ints(ids) // (deterministic: the request is built twice, for the model line and for the delivery)
+		for i, id := range ids {
+			if i%2 == 0 {
+				delete(k, uint32(id))
+			}
+		}
+		return &net.SyncRequest{FromID: math.MaxUint32, Known: k, SyncLimit: 1000}
+	}, []_state.State{_state.Babbling, _state.Suspended})
 	syncCase("known=nil", func(t *hnode) *net.SyncRequest { return &net.SyncRequest{FromID: h1.id, SyncLimit: 1000} }, allStates)
 	syncCase("known=unknown-ids", func(t *hnode) *net.SyncRequest {
 		return &net.SyncRequest{FromID: 77, Known: map[uint32]int{0: 5, 77: -3, math.MaxUint32: math.MaxInt64}, SyncLimit: 3}
@@ -278,6 +329,7 @@ func (w *world) cases() []bcase {
 			}})
 	}
 	l = append(l, bcase{id: "eager/events=nil", kind: "eager", states: allStates, run: eager(h1.id, nil)})
+	l = append(l, bcase{id: "eager/events=nil/babbling", kind: "eager", states: babbling, run: eager(h1.id, nil)})
 	l = append(l, bcase{id: "eager/events=empty/from=unknown", kind: "eager", states: allStates, run: eager(77, []hg.WireEvent{})})
 	l = append(l, bcase{id: "eager/zero-event", kind: "eager", states: babbling, run: eager(h1.id, []hg.WireEvent{{}})})
 	l = append(l, bcase{id: "syncresp/zero-event", kind: "syncresp", states: babbling, run: syncResp(h1.id, []hg.WireEvent{{}})})
@@ -342,6 +394,13 @@ func (w *world) cases() []bcase {
 	// ---------------- JoinRequest ----------------
 	joinCase := func(name string, mk func(w *world) hg.InternalTransaction, states []_state.State) {
 		l = append(l, bcase{id: "join/" + name, kind: "join", states: states,
+			input: func(w *world, t *hnode) string {
+				b, _ := json.Marshal(&net.JoinRequest{InternalTransaction: mk(w)})
+				if len(b) > 400 {
+					b = append(b[:400], []byte("...")...)
+				}
+				return string(b)
+			},
 			run: func(w *world, t *hnode) callRes {
 				var req net.JoinRequest
 				if !viaJSON(&net.JoinRequest{InternalTransaction: mk(w)}, &req) {
@@ -405,6 +464,12 @@ func (w *world) cases() []bcase {
 		itx.Sign(w.outsider)
 		return itx
 	}, babbling)
+	joinCase("valid-outsider-type255", func(w *world) hg.InternalTransaction {
+		itx := itxOf(w.outsiderHex(), "")
+		itx.Body.Type = 255
+		itx.Sign(w.outsider)
+		return itx
+	}, babbling)
 	joinCase("valid-present-peer", func(w *world) hg.InternalTransaction { return signedItx(w.peerl[2].PubKeyHex, w.privs[2]) }, babbling)
 	joinCase("valid-huge-moniker", func(w *world) hg.InternalTransaction {
 		itx := hg.NewInternalTransaction(hg.PEER_ADD, *peers.NewPeer(w.outsiderHex(), strings.Repeat("a", 100000), strings.Repeat("m", 100000)))
@@ -423,10 +488,20 @@ func stateCode(s _state.State) int { return int(s) }
 var essential = map[string]bool{
 	"sync/limit=-1/babbling":                          true,
 	"sync/limit=-1/suspended":                         true,
+	"sync/known[h1]=-2/babbling":                      true,
+	"sync/known[h1]=-2/suspended":                     true,
+	"sync/known[h1]=-9223372036854775808/babbling":    true,
+	"sync/known[all]=-2":                              true,
+	"sync/known[only-h1]=-2":                          true,
+	"sync/known[all]=maxint":                          true,
+	"sync/known=missing-ids":                          true,
+	"sync/known=nil":                                  true,
+	"sync/known=unknown-ids":                          true,
 	"join/key=empty/sig=one":                          true,
 	"join/valid-outsider":                             true,
 	"eager/itx=empty/nonbase36":                       true,
 	"eager/sig=nonbase36":                             true,
+	"eager/events=nil/babbling":                       true,
 	"byz/bsig=0fields/index=0":                        true,
 	"byz/bsig=nonbase36/index=0":                      true,
 	"byz/bsig=good/index=0":                           true,
@@ -543,6 +618,10 @@ func (w *world) runCase(seq int, c bcase) {
 	if c.hline != nil {
 		hl = c.hline(w, t, st)
 	}
+	inputDesc := ""
+	if c.input != nil {
+		inputDesc = " input=" + c.input(w, t)
+	}
 	t.n.VerifSetState(st)
 	r := c.run(w, t)
 	t.n.VerifSetState(_state.Babbling)
@@ -618,7 +697,11 @@ func (w *world) runCase(seq int, c bcase) {
 			// a node that rejected a fast-forward response stays in CatchingUp and asks again:
 			// a VALID response must then be accepted
 			rebuild = true
-			if p := w.ffRetryProbe(t); p != "" {
+			p := w.lockProbe(t)
+			if p == "" {
+				p = w.ffRetryProbe(t)
+			}
+			if p != "" {
 				after = "wedged:" + p
 				violation("node-wedged", fmt.Sprintf("%s case=%s state=%s outcome=%s probe=%s", c.kind, c.id, stateName(st), r.outcome, p))
 			} else {
@@ -626,7 +709,7 @@ func (w *world) runCase(seq int, c bcase) {
 			}
 		} else if p := w.serveProbe(t); p != "" {
 			after = "wedged:" + p
-			violation("node-wedged", fmt.Sprintf("%s case=%s state=%s outcome=%s probe=%s", c.kind, c.id, stateName(st), r.outcome, p))
+			violation("node-wedged", fmt.Sprintf("%s case=%s state=%s outcome=%s probe=%s%s", c.kind, c.id, stateName(st), r.outcome, p, inputDesc))
 			rebuild = true
 		}
 		if byzAfter, ok := t.n.VerifCore().KnownEvents()[byzID]; c.poisons && (ok != byzSeen || byzAfter != byzBefore) {
